@@ -342,9 +342,10 @@ DECL_jwt_parse_payload(contract_all_jwt_parse_payload, C14_PH_CLAUSES);
  * jwt_parse unit intractable in replace mode, so the calls are RECORDED instead: which
  * argument, how often, with what result). */
 extern unsigned g_ph_calls, g_pp_calls; extern int g_ph_ret, g_pp_ret; extern const char *g_ph_arg, *g_pp_arg;
-#define DECL_parse_rec(NAME, ARGNAME, CALLS, RET, ARG, EXTRA_ASSIGNS, EXTRA) \
+#define DECL_parse_rec(NAME, ARGNAME, DOCP, CALLS, RET, ARG, EXTRA_ASSIGNS, EXTRA) \
 int NAME(jwt_t *jwt, char *ARGNAME) \
 __CPROVER_requires(__CPROVER_rw_ok(jwt, sizeof(*jwt))) \
+__CPROVER_requires(DOCP == NULL || (__CPROVER_r_ok(DOCP, sizeof(json_t)) && DOCP->type == JSON_OBJECT && DOCP->refcount == 1 && DOCP->tracked == NULL)) \
 __CPROVER_requires(ARGNAME != NULL && __CPROVER_r_ok(ARGNAME, 1)) \
 __CPROVER_requires(g_vj_len_c < 0x1000000 && KEY_IS_NAME3) \
 __CPROVER_requires(SPEC_ERRMSG_TERMINATED(jwt)) \
@@ -355,9 +356,9 @@ __CPROVER_ensures(SPEC_ERRMSG_TERMINATED(jwt)) \
 SPEC_ERR_MONOTONE(jwt) \
 C14_PH_CLAUSES \
 EXTRA
-DECL_parse_rec(contract_rec_jwt_parse_head, head, g_ph_calls, g_ph_ret, g_ph_arg, jwt->headers COMMA jwt->alg,
+DECL_parse_rec(contract_rec_jwt_parse_head, head, jwt->headers, g_ph_calls, g_ph_ret, g_ph_arg, jwt->headers COMMA jwt->alg,
 	__CPROVER_ensures(__CPROVER_return_value == 0 ==> (jwt->headers != NULL && SPEC_ALG_KNOWN(jwt->alg))));
-DECL_parse_rec(contract_rec_jwt_parse_payload, payload, g_pp_calls, g_pp_ret, g_pp_arg, jwt->claims,
+DECL_parse_rec(contract_rec_jwt_parse_payload, payload, jwt->claims, g_pp_calls, g_pp_ret, g_pp_arg, jwt->claims,
 	__CPROVER_ensures(__CPROVER_return_value == 0 ==> jwt->claims != NULL));
 
 int contract_all_jwt_parse(jwt_t *jwt, const char *token, unsigned int *len)
@@ -367,6 +368,8 @@ __CPROVER_requires(__CPROVER_is_fresh(len, sizeof(*len)))
 __CPROVER_requires(g_vj_len_c < 0x1000000 && KEY_IS_NAME3)
 __CPROVER_requires(SPEC_ERRMSG_TERMINATED(jwt))
 __CPROVER_requires(g_ph_calls == 0 && g_pp_calls == 0)
+__CPROVER_requires(jwt->headers == NULL || EMPTY_OBJ(jwt->headers))
+__CPROVER_requires(jwt->claims == NULL || EMPTY_OBJ(jwt->claims))
 __CPROVER_assigns(*len, jwt->headers, jwt->claims, jwt->alg, jwt->error, SPEC_ERRMSG_FRAME(jwt), JSON_LOAD_GHOSTS, g_last_strlen,
 		  g_ph_calls, g_ph_ret, g_ph_arg, g_pp_calls, g_pp_ret, g_pp_arg)
 __CPROVER_ensures(__CPROVER_return_value == 0 || __CPROVER_return_value == 1)
